@@ -294,10 +294,8 @@ def _run_seq(task):
     for op in task["ops"]:
         j = rng.randrange(len(var))
         if op in ("qfix", "qlb"):
-            cands = [x for x in range(len(var)) if queued.get(x, op) == op]
-            if not cands:
-                continue
-            j = rng.choice(cands)
+            # both queues may address the same variable: requests take effect in call order (a later fix replaces an earlier
+            # queued lower bound, a later lower bound raises the lower bound of an earlier queued fix)
             queued[j] = op
         if op == "qfix":
             val = rng.randrange(0, int(ub[j]) + 1)
@@ -437,9 +435,7 @@ def _apply(ops):
         kind = KINDS[k]
         j = j % len(var)
         if kind in ("qfix", "qlb"):
-            if queued.get(j, kind) != kind:
-                continue                      # the relative order of the two queues is undocumented
-            queued[j] = kind
+            queued[j] = kind                  # both queues may address one variable: requests take effect in call order
         if kind == "qfix":
             val = min(val, int(ub[j])) if ub[j] >= 0 else 0
             w.queue_fix_variable(var[j], val)
